@@ -2,7 +2,7 @@
 # usage: seedcheck.sh <outdir containing patch.diff demo_test.go meta.json> <prop> [more props...]
 # Confirms a seeded change in a scratch copy of /repo (builds, suite passes, demo fails with / passes without) and runs the checks on it.
 set -u
-out=$1; shift
+out=$(realpath $1); shift
 export GOFLAGS=-mod=mod GOPROXY=off GOSUMDB=off GOTOOLCHAIN=local
 pkg=$(python3 -c "import json;print(json.load(open('$out/meta.json'))['package_dir'])")
 d=$(mktemp -d /tmp/seed.XXXXXX)
